@@ -98,9 +98,9 @@ def ev(e: 'Expr', rho: 'Env') -> 'Bool':
     return atom(e, rho)
 
 
-@spec(inline=True)
-def equiv(a: 'Expr', b: 'Expr') -> 'Bool':
-    """a and b have the same truth value under every valuation"""
+def equiv(a, b):
+    """a and b have the same truth value under every valuation.  Symbolically a defined predicate:
+    ForAll rho. ev(a, rho) == ev(b, rho)  (pyvc.models_specs)"""
     return forall_env(lambda rho: ev(a, rho) == ev(b, rho))
 
 
